@@ -1032,6 +1032,7 @@ static void run_program(const char* path) {
 /* ------------------------------------------------------------------ OS-level workloads (C07 C11 C18): rounds of
    allocate-everything / free-everything (+ worker threads that exit) / forced collect / quiescence measurement */
 static void log_areas_list(void);
+static int c18_abandoned_areas = 0;
 typedef struct { long count; int first; } areas_t;
 static bool areas_visitor(const mi_heap_t* heap, const mi_heap_area_t* area, void* block, size_t bsize, void* arg) {
   areas_t* v = (areas_t*)arg; (void)heap; (void)bsize;
@@ -1046,6 +1047,19 @@ static void log_areas_list(void) {
   areas_t v; v.count = 0; v.first = 1;
   vf_logf("\"areas\":[");
   for (int i = 0; i < MAXHEAPS; i++) if (hps[i].alive) mi_heap_visit_blocks(hps[i].hp, false, areas_visitor, &v);
+  /* pages that belong to no heap of a living thread but still hold a block of the program (left behind by an exited thread): their
+     areas are in use as well */
+  if (c18_abandoned_areas) {
+    mi_page_t* seen[64]; int nseen = 0;
+    for (int s = 0; s < MAXSLOTS; s++) if (slots[s].p && slots[s].heap != hps[0].id) {
+      mi_page_t* pg = _mi_ptr_page(slots[s].p); int dup = 0;
+      for (int k = 0; k < nseen; k++) if (seen[k] == pg) dup = 1;
+      if (dup || nseen >= 64 || mi_page_heap(pg) != NULL) continue;
+      seen[nseen++] = pg;
+      size_t len = (size_t)pg->reserved * mi_page_block_size(pg);
+      vf_logf("%s[%ld,%ld,%ld,%ld]", v.first ? "" : ",", VF_HI(pg->page_start), VF_LO(pg->page_start), VF_HI(len), VF_LO(len)); v.first = 0;
+    }
+  }
   vf_logf("]");
 }
 static void ev_areas(void) { vf_logf("{\"e\":\"areas\",\"t\":0,"); log_areas_list(); vf_logf("}"); vf_log_line_end(); }
@@ -1155,9 +1169,13 @@ static void run_rounds(const char* wl, int rounds, int recover_after /* round af
 }
 /* C18: free whole pages / whole segments / everything, then ordinary activity under a moving virtual clock */
 static int c18_midclock = 0, c18_gentle = 0;
-static void run_c18(const char* pattern, long step_ms) {
+static const char* c18_pattern = "pages"; static long c18_step = 0; static int c18_abandoned = 0;
+/* phases 1 and 2 of the C18 workload (by the main thread, or by a thread that exits afterwards: variant "abandoned") */
+static void c18_build_and_free(void) {
 #if defined(VF_SHIM)
+  const char* pattern = c18_pattern; long step_ms = c18_step;
   int immediate = (mi_option_get(mi_option_purge_delay) == 0);
+  int base = next_id - 1;
   /* phase 1: build up */
   if (!strcmp(pattern, "pages")) { alloc_many(200, 8000, 8192, 0); alloc_many(40, 30000, 32768, 0); }
   else if (!strcmp(pattern, "segments")) { alloc_many(100, 900000, 1048576, 0); }
@@ -1167,10 +1185,10 @@ static void run_c18(const char* pattern, long step_ms) {
   /* phase 2: free (whole pages while the segment stays / whole segments / everything) */
   int keep_every = (!strcmp(pattern, "all") ? 0 : 4);
   int tofree[MAXSLOTS], nf = 0;
-  for (int s = 0; s < MAXSLOTS; s++) if (slots[s].p) {
-    int keep = 0;
-    if (keep_every && !strcmp(pattern, "pages")) keep = (slots[s].id > 150 && slots[s].id <= 200) || (slots[s].id % 40 == 0);   /* free whole pages, keep the segment alive */
-    if (keep_every && !strcmp(pattern, "segments")) keep = (slots[s].id > 92);                                   /* whole segments go back, the last stays */
+  for (int s = 0; s < MAXSLOTS; s++) if (slots[s].p && slots[s].id > base) {
+    int keep = 0; int rid = slots[s].id - base;
+    if (keep_every && !strcmp(pattern, "pages")) keep = (rid > 150 && rid <= 200) || (rid % 40 == 0);   /* free whole pages, keep the segment alive */
+    if (keep_every && !strcmp(pattern, "segments")) keep = (rid > 92);                                   /* whole segments go back, the last stays */
     if (!keep) tofree[nf++] = s;
   }
   /* free in allocation order, so that the blocks of one page are freed together */
@@ -1181,6 +1199,36 @@ static void run_c18(const char* pattern, long step_ms) {
     if (c18_midclock && (i == nf / 3 || i >= nf - 8)) vf_clock_advance(step_ms);   /* (before each of the last frees: whatever is pending has expired) */
     op_free_slot(tofree[i], FR_free); if (immediate) ev_areas();
   }
+#endif
+}
+static void* c18_worker_main(void* arg) {
+  worker_t* w = (worker_t*)arg;
+  cur_t = w->t; cur_theap = w->heapid;
+#if defined(VF_SHIM)
+  vf_cur_thread = w->t;
+#endif
+  vf_logf("{\"e\":\"tstart\",\"t\":%d,\"h\":%d}", w->t, w->heapid); vf_log_line_end();
+  c18_build_and_free();
+  vf_logf("{\"e\":\"tdone\",\"t\":%d}", w->t); vf_log_line_end();
+  vf_in_call = 1; mi_thread_done(); vf_in_call = 0;
+  cur_t = 0; cur_theap = 0;
+#if defined(VF_SHIM)
+  vf_cur_thread = 0;
+#endif
+  return NULL;
+}
+static void run_c18(const char* pattern, long step_ms) {
+#if defined(VF_SHIM)
+  c18_pattern = pattern; c18_step = step_ms;
+  c18_abandoned_areas = c18_abandoned;
+  if (c18_abandoned) {
+    /* the memory is freed by a thread that exits right afterwards (some of its blocks stay live: the segment is abandoned, not freed);
+       the main thread has pages with room of its own, so its later activity needs no fresh segment */
+    alloc_many(24, 8000, 8192, 0);
+    worker_t w; memset(&w, 0, sizeof(w)); w.t = next_thread_id++; w.heapid = next_heap_id++;
+    pthread_t th; pthread_create(&th, NULL, c18_worker_main, &w); pthread_join(th, NULL);
+  }
+  else c18_build_and_free();
   ev_mark("t0");
   if (c18_gentle) {
     /* gentle activity: only blocks of a class that already has a page with room (no page is allocated or freed), and non-forced
